@@ -24,8 +24,9 @@ def parseShare {p : Nat} [NeZero p] (s : String) : Option (Nat × List (Fp p)) :
     some (id, fpList xs)
   | _ => none
 
-/-- share scalar of MSP row `k`: the position of `k` among the rows of its holder -/
-def shareOfRow {p : Nat} [NeZero p] (labels : List Nat) (shares : List (Nat × List (Fp p))) (k : Nat) : Fp p :=
+/-- share scalar of MSP row `k`: the position of `k` among the rows of its holder (generic in the
+scalar type so that `Props/C03Line` can state theorems about this very function) -/
+def shareOfRow {F : Type} [OfNat F 0] (labels : List Nat) (shares : List (Nat × List F)) (k : Nat) : F :=
   match labels[k]? with
   | none => 0
   | some id =>
